@@ -25,7 +25,8 @@ pub(crate) fn fast_decompose(
         // make sure we aren't doing something weird like introducing new base units
         for (dim, pow) in unit.iter() {
             let vpow = value.unit.get(dim).cloned().unwrap_or(0);
-            let snum = (vpow - pow).signum();
+            // Exponents can sit at either end of the i64 range.
+            let snum = vpow.saturating_sub(*pow).signum();
             if snum != 0 && snum != vpow.signum() {
                 continue 'outer;
             }
@@ -35,7 +36,11 @@ pub(crate) fn fast_decompose(
             unit: unit.clone(),
         };
         for &i in [-1, 1, 2].iter() {
-            let res = (value / &num.powi(i)).unwrap();
+            let res = match value / &num.powi(i) {
+                Some(res) => res,
+                // the exponents would not fit
+                None => continue,
+            };
             let score = res.complexity_score();
             let better = best
                 .as_ref()
@@ -52,9 +57,11 @@ pub(crate) fn fast_decompose(
                 value: Numeric::one(),
                 unit: unit.clone(),
             };
-            let mut res = (value / &num.powi(pow)).unwrap().unit;
-            res.insert(BaseUnit::new(&**name), pow as i64);
-            return res;
+            if let Some(res) = value / &num.powi(pow) {
+                let mut res = res.unit;
+                res.insert(BaseUnit::new(&**name), pow as i64);
+                return res;
+            }
         }
     }
     value.unit.clone()
